@@ -142,6 +142,7 @@ def tokens(events, me=None, owner=None):
         elif t == "S":
             pass
         elif t == "R":
+            st["returns"] = st.get("returns", 0) + 1
             if top != "sb":
                 toks.append("R")
         elif t == "pk":
@@ -347,7 +348,9 @@ def check_cset(res, case, sr, universe, contrib, model_ok):
     pinned_explains = None
     if stats["inserts"] != len(contrib) or stats["unbalanced"]:
         fails.append(("harness log is not the script (inserts logged != inserts scripted)", {"logged": stats["inserts"], "scripted": len(contrib)}))
-    if model_ok:
+    if stats["packs"] and not any(st.get("returns") for _, st in per_rank):
+        mismatch = {"relation": "comm hooks present (YGM_VERIF_HOOKS: as-, cb+, cb-, ex+, ex-)", "what": "no async-return event in the log: the tree has no hooks, histories cannot be replayed"}
+    elif model_ok:
         ans = C.model("cache", [f"fixed {S} | " + " ".join(t) for t, _ in per_rank])
         parsed = [parse_model(a) for a in ans]
         res.traces_validated += n
